@@ -139,6 +139,7 @@ class BoundMethod:
 class ExcVal:
     def __init__(self, tname: str, args: tuple = (), kwargs: Optional[dict] = None):
         self.tname, self.args, self.kwargs = tname, args, kwargs or {}
+        self.attrs: Optional[dict] = None      # set when the repository's own __init__ was interpreted
 
     def __repr__(self):
         return f"{self.tname}{self.args}"
@@ -352,7 +353,15 @@ class Interp:
     def _construct(self, c: ClassRef, args, kwargs, node):
         name = c.name
         if name in BUILTIN_EXC_BASES or self._is_exception_class(name):
-            return ExcVal(name, tuple(args), dict(kwargs))
+            ev = ExcVal(name, tuple(args), dict(kwargs))
+            init = self.prog.resolve_method(name, "__init__") if name in self.prog.classes else None
+            if init is not None:
+                # the repository's exception constructor decides which attributes the object carries
+                ev.attrs = {}
+                ev.args = ()
+                ev.kwargs = {}
+                self.call(init, [ev] + list(args), dict(kwargs))
+            return ev
         hook = self.ext.get("new:" + name)
         if hook is not None:
             return hook(*args, **kwargs)
@@ -599,6 +608,12 @@ class Interp:
             if isinstance(base, ClassRef):
                 self.class_state[(base.name, t.attr)] = v
                 self.event("class-store", base.name, t.attr)
+                return
+            if isinstance(base, ExcVal):
+                if base.attrs is None:
+                    base.attrs = {}
+                base.attrs[t.attr] = v
+                base.kwargs[t.attr] = v
                 return
             if isinstance(base, (Obj, _NativeModel)):
                 hook = self.ext.get("setattr")
@@ -1006,6 +1021,12 @@ class Interp:
                     return self._eval_class_attr(ci, ex)
             raise Unsupported(f"class attribute {key}")
         if isinstance(base, ExcVal):
+            if base.attrs is not None:
+                if attr in base.attrs:
+                    return base.attrs[attr]
+                if attr == "args":
+                    return base.args
+                raise Raised(ExcVal("AttributeError", (f"'{base.tname}' object has no attribute '{attr}'",)), node)
             if attr in base.kwargs:
                 return base.kwargs[attr]
             if attr == "args":
